@@ -1,8 +1,9 @@
 // corr: correspondence harness. For one stream it writes
-//   <out>/<stream>.cases   one case per line, input of the Lean driver
-//   <out>/<stream>.impl    what the implementation (current /repo tree) observes, same format as the driver's output
-//   <out>/<stream>.oracle  property violations found by the implementation-only oracle (one JSON object per line)
-//   <out>/<stream>.stats   JSON: counts describing the generated distribution
+//
+//	<out>/<stream>.cases   one case per line, input of the Lean driver
+//	<out>/<stream>.impl    what the implementation (current /repo tree) observes, same format as the driver's output
+//	<out>/<stream>.oracle  property violations found by the implementation-only oracle (one JSON object per line)
+//	<out>/<stream>.stats   JSON: counts describing the generated distribution
 package main
 
 import (
